@@ -386,6 +386,29 @@ def bfs(cfg, depth):
     return res
 
 
+def many_probe(n_short, n_long, with_adapter=False):
+    """size ladder: n_short short-lived and n_long long-lived instances; after the short ones timed out ONE sweep trigger leaves exactly the
+    long-lived ones (counted, listed, in memory), and every short one was destroyed once"""
+    impl = Impl(with_adapter)
+    try:
+        c = impl.client
+        shorts = [srv.start_instance(c, timeout={"seconds": 5}) for _ in range(n_short)]
+        longs = [srv.start_instance(c, timeout={"hours": 1}) for _ in range(n_long)]
+        impl.clock.advance(seconds=6)
+        body = srv.body(c.get("/full-metrics"))
+        got = body.get("instanceCount")
+        mem = set(impl.app._instance_manager._instances)
+        if got != n_long or mem != set(longs):
+            return "%d short-lived + %d long-lived instances, 6 s later one full-metrics query: instanceCount %r, %d in memory (want %d)" % (n_short, n_long, got, len(mem), n_long)
+        alive = set(getattr(d["instance"], "_verif_key", None) for d in impl.app._instance_manager._instances.values())
+        wrong = [k for k, n in impl.destroyed.items() if impl.objs[k] is not impl.app._bptk and ((k in alive and n != 0) or (k not in alive and n != 1))]
+        if wrong:
+            return "%d + %d instances: destroy() counts wrong for %d bptk objects" % (n_short, n_long, len(wrong))
+        return None
+    finally:
+        impl.close()
+
+
 def configs(tier):
     names = list(UNITS)
     out = []
@@ -425,13 +448,17 @@ def run(ctx):
         samples += [{"config": [cfg[0], list(cfg[1]), bool(pre), bool(tok)], "history": h} for h in res.samples[:1]]
         for sig, hist, detail in res.violations:
             ctx.violation("C17/%s/%s%s%s" % (sig, "adapter" if cfg[0] else "memory", "/both-created-root" if pre else "", "/token" if tok else ""), {"config": [cfg[0], list(cfg[1]), bool(pre), bool(tok)], "history": hist}, detail)
+    for (ns, nl) in ((10, 2), (60, 5), (70, 5), (150, 5), (300, 3)):
+        v = many_probe(ns, nl)
+        if v:
+            ctx.violation("C17/many-instances/%d+%d" % (ns, nl), {"many": [ns, nl]}, v)
     if ctx.tier == "thorough":
         realtime_crosscheck(ctx)
     ctx.finish({
         "states": tot_s, "transitions": tot_t, "traces_validated_against_impl": tot_t, "samples": samples, "per_config": per,
         "rule": "BFS over create(timeout unit)/begin-session/session-results/keep-alive/metrics/full-metrics/save-state (with an adapter)/requests with a wrong token (on a server that demands one)/advance(eps, T/2, T-eps, T, T+eps per instance) under a "
                 "virtual clock; canonical state = remaining life per instance (0 once expired) + presence flags; every timeout unit appears in a configuration; "
-                "two configurations are searched again from the state in which both instances exist",
+                "two configurations are searched again from the state in which both instances exist; size ladder: up to 300 short-lived instances swept by one trigger",
     }, assumptions=["the server reads time only through datetime.datetime.now() of its own modules (replaced by the harness clock)",
                     "an expired instance accessed itself before any sweep is not judged"])
 
@@ -481,6 +508,9 @@ def realtime_crosscheck(ctx):
 def replay(case):
     if "realtime" in case:
         return None
+    if "many" in case:
+        v = many_probe(*case["many"])
+        return [("many-instances", v)] if v else None
     cc = case["config"]
     system = get_system((cc[0], tuple(cc[1]), bool(cc[2]) if len(cc) > 2 else False, bool(cc[3]) if len(cc) > 3 else False))
     impl, ref = system.new()
